@@ -69,7 +69,7 @@ class TrQ(Tr):
 
 
 HEADER_Q = ("From Coq Require Import ZArith QArith Qabs Qminmax Bool List.\n"
-            "From Aegean Require Import Lib.QBase.\nOpen Scope Q_scope.\n")
+            "From Aegean Require Import Lib.QBase Lib.Ext.\nOpen Scope Q_scope.\n")
 
 SIGNED = {'data', 'summit', 'amp', 'amp_min', 'amp_max', 'isnegative', 'kappa_sigma', 'curve', 'snr', 'rmsimg',
           'summits'}
@@ -132,6 +132,104 @@ def _or_flags(stmts, var, fl):
     if not seen:
         raise TranslateError(f"estimate_lmfit_parinfo: no `{var} |= flags.X` in a flag block")
     return v
+
+
+def _curvature_leaves(tree):
+    """the curvature block of SourceFinder._fit_island: maximum_filter / minimum_filter of the image cut-out, what replaces
+    non-finite pixels for each of them, the comparisons defining pmask / tmask, the values written into icurve and their order"""
+    import copy
+    fi = find_func(tree, '_fit_island', cls='SourceFinder')
+    C = "_fit_island: "
+    body = strip_doc(fi.body)
+    start = [k for k, st in enumerate(body) if isinstance(st, ast.Assign) and src(st.targets[0]) == 'icurve'
+             and src(st.value).startswith('np.zeros(')]
+    crop = [k for k, st in enumerate(body) if isinstance(st, ast.Assign) and src(st.targets[0]) == 'icurve'
+            and isinstance(st.value, ast.Subscript) and src(st.value.value) == 'icurve']
+    if len(start) != 1 or len(crop) != 1 or crop[0] <= start[0]:
+        raise TranslateError(C + "curvature block (icurve = np.zeros(..) ... icurve = icurve[..]) not found")
+    env = {}
+
+    class Sub(ast.NodeTransformer):
+        def visit_Name(self, n):
+            if isinstance(n.ctx, ast.Load) and n.id in env:
+                return copy.deepcopy(env[n.id])
+            return n
+    writes = []
+    for st in body[start[0] + 1:crop[0]]:
+        if isinstance(st, ast.Assign) and len(st.targets) == 1 and isinstance(st.targets[0], ast.Name):
+            env[st.targets[0].id] = Sub().visit(copy.deepcopy(st.value))
+        elif isinstance(st, ast.Assign) and len(st.targets) == 1 and isinstance(st.targets[0], ast.Subscript) \
+                and src(st.targets[0].value) == 'icurve' and isinstance(st.targets[0].slice, ast.Name):
+            try:
+                v = ast.literal_eval(st.value)
+            except Exception:
+                raise TranslateError(C + f"value written into icurve: {src(st.value)}")
+            if not isinstance(v, int):
+                raise TranslateError(C + f"value written into icurve: {src(st.value)}")
+            writes.append((st.targets[0].slice.id, v))
+        elif isinstance(st, ast.Expr) and isinstance(st.value, ast.Constant):
+            continue
+        else:
+            raise TranslateError(C + f"unexpected statement in the curvature block: {src(st)[:80]}")
+    if sorted(w[0] for w in writes) != ['pmask', 'tmask']:
+        raise TranslateError(C + f"icurve is written through {[w[0] for w in writes]} (expected pmask and tmask once each)")
+
+    def filt(name, fname):
+        e = env.get(name)
+        if not (isinstance(e, ast.Call) and src(e.func) == fname and len(e.args) == 1 and len(e.keywords) == 1
+                and e.keywords[0].arg == 'size' and isinstance(e.keywords[0].value, ast.Constant)):
+            raise TranslateError(C + f"{name} is not {fname}(<array>, size=<n>)")
+        return e, e.args[0], e.keywords[0].value.value
+
+    def mask(name, filt_call, arr):
+        e = env.get(name)
+        if not (isinstance(e, ast.Call) and src(e.func) == 'np.where' and len(e.args) == 1 and isinstance(e.args[0], ast.Compare)
+                and len(e.args[0].ops) == 1 and isinstance(e.args[0].ops[0], ast.Eq)):
+            raise TranslateError(C + f"{name} is not np.where(<filtered> == <array>)")
+        sides = [src(e.args[0].left), src(e.args[0].comparators[0])]
+        if sorted(sides) != sorted([src(filt_call), src(arr)]):
+            raise TranslateError(C + f"{name} does not compare the filtered array with the array that was filtered")
+
+    def fill_of(arr):
+        """(slice text, Gallina fill)"""
+        if isinstance(arr, ast.Subscript) and src(arr.value) == 'self.global_data.img':
+            return src(arr), 'FillNone'
+        if isinstance(arr, ast.Call) and src(arr.func) == 'np.where' and len(arr.args) == 3 and not arr.keywords:
+            c, a, f = arr.args
+            if isinstance(a, ast.Subscript) and src(a.value) == 'self.global_data.img' and src(c) == f'np.isfinite({src(a)})':
+                if src(f) == '-np.inf':
+                    return src(a), 'FillNegInf'
+                if src(f) in ('np.inf', '+np.inf'):
+                    return src(a), 'FillPosInf'
+                try:
+                    v = ast.literal_eval(f)
+                except Exception:
+                    v = None
+                if isinstance(v, int) and not isinstance(v, bool):
+                    return src(a), f'(FillConst ({v}))'
+        raise TranslateError(C + f"array handed to the rank filter: {src(arr)[:160]}")
+    pcall, parr, psize = filt('peaks', 'maximum_filter')
+    tcall, tarr, tsize = filt('troughs', 'minimum_filter')
+    mask('pmask', pcall, parr)
+    mask('tmask', tcall, tarr)
+    (ps, pfill), (ts, tfill) = fill_of(parr), fill_of(tarr)
+    if ps != ts:
+        raise TranslateError(C + "maximum_filter and minimum_filter look at different cut-outs")
+    if psize != tsize or not isinstance(psize, int):
+        raise TranslateError(C + f"filter sizes {psize!r} / {tsize!r}")
+    vals = dict(writes)
+    return f"""
+(* SourceFinder._fit_island: curvature map of an island.  peaks = maximum_filter(P, size), troughs =
+   minimum_filter(T, size) where P / T are the image cut-out with its non-finite pixels replaced as stated;
+   icurve = curv_peak_value where peaks == P, curv_trough_value where troughs == T *)
+Definition curv_peak_fill : fill := {pfill}.
+Definition curv_trough_fill : fill := {tfill}.
+Definition curv_peak_value : Z := {vals['pmask']}.
+Definition curv_trough_value : Z := {vals['tmask']}.
+(* true: the trough value is written after the peak value (it wins where a pixel is both) *)
+Definition curv_trough_written_last : bool := {'true' if writes[-1][0] == 'tmask' else 'false'}.
+Definition curv_filter_size : Z := {psize}.
+"""
 
 
 @point('Polarity')
@@ -443,6 +541,7 @@ def gen_polarity(repo):
         raise TranslateError(F + f"filter term {src(n)}")
     drop = bexp(ft)
     dd = dict(defs)
+    curvature = _curvature_leaves(tree)
     b = lambda x: 'true' if x else 'false'  # noqa: E731
     return HEADER_Q + f"""
 (* SourceFinder.estimate_lmfit_parinfo: the polarity-dependent leaves.  v = pixel value (background
@@ -488,4 +587,4 @@ Definition psf_fixed_mask : Z := {psf_rule}.
 (* the translator checked that the position / shape / angle bounds, the vary switches and the flags of
    a component do not depend on pixel values other than through the peak position and the index *)
 Definition other_parameters_value_independent : bool := true.
-"""
+""" + curvature
